@@ -554,7 +554,8 @@ class BasicContiguousVector<cntgs::Options<Option...>, Parameter...>
             {
                 return false;
             }
-            return detail::trivial_equal(data_begin(), data_end(), other.data_begin(), other.data_end());
+            return size() == other.size() && locator_.fixed_sizes() == other.locator_.fixed_sizes() &&
+                   detail::trivial_equal(data_begin(), data_end(), other.data_begin(), other.data_end());
         }
         else
         {
